@@ -372,9 +372,9 @@ elif kind in ('two_point', 'three_point', 'onion_peeling'):
     e = np.zeros(n); e[b] = 1.0
     if kind == 'onion_peeling':
         # D = inv(W) with W[i][j] = projection at i of the j-th ring: check (W D)[a, b] = delta
-        W = np.array([[Q.los(Q.daun_f(0, j)[0], float(i), Q.daun_f(0, j)[1], Q.daun_f(0, j)[2])[0]
-                       for j in range(n)] for i in range(n)])
-        got = (W @ D)[a, b]; ref = 1.0 if a == b else 0.0
+        wd, dw = Q.onion_products(D, a, b)
+        ref = 1.0 if a == b else 0.0
+        got = wd if abs(wd - ref) >= abs(dw - ref) else dw
     else:
         mk = Q.two_point_interp_d if kind == 'two_point' else Q.three_point_interp_d
         d, hi, br = mk(e)
@@ -567,6 +567,265 @@ def search(ctx, rng, budget):
             a, b = np.unravel_index(np.argmax(np.abs(R)), R.shape)
             hits.append(mk('onion_peeling', (n,), int(a), int(b), (W @ Dm)[a, b], float(a == b), tol, n,
                            'onion_peeling: (ring projections) x D is not the identity at [%d][%d]' % (a, b)))
+    # large onion-peeling operators: sampled elements of W.D and D.W (row / column of W by quadrature)
+    for n in (256, 300):
+        Dm = da._bs_onion_peeling(n)
+        prs = [(0, 0), (1, 1), (n - 1, n - 1), (1, n - 1), (n - 1, 1), (n // 2, n // 2 + 1), (n // 2 + 1, n // 2), (0, n - 1)]
+        prs += [(int(rng.integers(n)), int(rng.integers(n))) for _ in range(budget)]
+        for a, b in prs:
+            wd, dw = Q.onion_products(Dm, a, b)
+            ref = 1.0 if a == b else 0.0
+            tol = 1e-10 * n
+            n_eval += 2
+            distinct.add(('onion', n, index_class(a, b, n)))
+            note('onion', max(abs(wd - ref), abs(dw - ref)), tol)
+            if not (abs(wd - ref) <= tol and abs(dw - ref) <= tol):
+                hits.append(mk('onion_peeling', (n,), a, b, wd if abs(wd - ref) > tol else dw, ref, tol, n,
+                               'onion_peeling (n=%d): (ring projections) x D and D x (ring projections) must be the identity; element [%d][%d]'
+                               % (n, a, b)))
+    return hits, n_eval, len(distinct), worst
+
+
+# ---------------------------------------------------------------------------
+# search through the caching front ends (the property's observe_at: get_bs_cached)
+# ---------------------------------------------------------------------------
+HIST_SNIPPET = r"""
+import sys, io, math, tempfile, shutil, contextlib, numpy as np
+sys.path.insert(0, %(tools)r)
+from oracle import c09_quad as Q
+import abel, abel.dasch, abel.daun, abel.rbasex, abel.basex
+T = tempfile.mkdtemp(prefix='c09-replay-', dir='/var/tmp')
+try:
+    with contextlib.redirect_stdout(io.StringIO()):
+%(setup)s
+    got = float(%(got)s)
+    ref = float(%(ref)s)
+finally:
+    shutil.rmtree(T, ignore_errors=True)
+print(%(what)r)
+print('returned element', repr(got), ' defining integral', repr(ref), ' tol', %(tol)r)
+sys.exit(0 if abs(got - ref) <= %(tol)r else 1)
+"""
+
+
+def cached_search(ctx, rng, budget):
+    """Elements as returned by get_bs_cached (basex, daun, rbasex, dasch): fresh,
+    cropped from a larger matrix in memory, loaded / cropped / extended from
+    files in a temporary basis_dir, with verbose False and True — against the
+    quadrature of the defining integral.  Every history is a few lines of
+    Python executed here and, verbatim, in the replay."""
+    import contextlib
+    import io
+    import shutil
+    import tempfile
+    from oracle import c09_quad as Q
+    import abel, abel.dasch, abel.daun, abel.rbasex, abel.basex
+    hits = []
+    n_eval = 0
+    distinct = set()
+    worst = {}
+
+    failed_hist = []
+
+    def run_hist(lines):
+        T = tempfile.mkdtemp(prefix='c09-', dir='/var/tmp')
+        ns = dict(abel=abel, np=np, T=T)
+        try:
+            with contextlib.redirect_stdout(io.StringIO()):
+                exec('\n'.join(lines), ns)
+        except Exception as e:       # a raising front end is not a C09 matter: recorded, history skipped
+            failed_hist.append((lines, '%s: %s' % (type(e).__name__, e)))
+            for m in (abel.dasch, abel.daun, abel.rbasex, abel.basex):
+                try:
+                    m.cache_cleanup()
+                except Exception:
+                    pass
+            return None
+        finally:
+            shutil.rmtree(T, ignore_errors=True)
+        return ns
+
+    SHAPE_SNIPPET = HIST_SNIPPET.replace('got = float(%(got)s)', 'got = %(got)s').replace('ref = float(%(ref)s)', 'ref = %(ref)s') \
+        .replace("print('returned element', repr(got), ' defining integral', repr(ref), ' tol', %(tol)r)",
+                 "print('shape(s) returned', got, 'expected', ref)") \
+        .replace('sys.exit(0 if abs(got - ref) <= %(tol)r else 1)', 'sys.exit(0 if got == ref else 1)')
+
+    def shape_hit(tag, lines, what, got_expr, expected):
+        snip = SHAPE_SNIPPET % dict(tools=os.path.join(vlib.VERIF, 'tools'), setup='\n'.join('        ' + l for l in lines),
+                                    got=got_expr, ref=repr(expected), what=what, tol=0)
+        hits.append(Hit('cached-shape', 'C09:cached:%s:shape' % tag, what + ' (expected %r)' % (expected,), snip,
+                        dict(history=lines, expected=repr(expected))))
+
+    def judge(tag, lines, what, got_expr, ref_expr, got, ref, tol, cls):
+        nonlocal n_eval
+        n_eval += 1
+        distinct.add((tag, cls))
+        worst[tag.split(':')[0] + '_cached'] = max(worst.get(tag.split(':')[0] + '_cached', 0.0), abs(got - ref) / tol)
+        if not abs(got - ref) <= tol:
+            snip = HIST_SNIPPET % dict(tools=os.path.join(vlib.VERIF, 'tools'),
+                                       setup='\n'.join('        ' + l for l in lines), got=got_expr, ref=ref_expr,
+                                       what=what, tol=tol)
+            hits.append(Hit('cached-element-equals-defining-integral', 'C09:cached:%s:%s' % (tag, cls),
+                            what + ': returned %r, defining integral %r (|diff| %.3g > tol %.3g)' % (got, ref, abs(got - ref), tol),
+                            snip, dict(history=lines, element=got_expr, value=got, quadrature=ref, tol=tol)))
+
+    def pairs(n, k, lower=False):
+        out = [(a, b) for a, b in sample_pairs(rng, n, k)]
+        sel = out[:3] + out[10:13] + out[-k:]
+        return [(a, b) for a, b in dict.fromkeys(sel)]
+
+    verbs = (False, True)
+    # ---- dasch: large fresh operator, memory crop, disk crop -------------------
+    big, small = (300, 100)
+    for method in ('two_point', 'three_point', 'onion_peeling'):
+        for v in verbs:
+            hists = [('fresh%d' % big, ["abel.dasch.cache_cleanup()",
+                                       "M = abel.dasch.get_bs_cached(%r, %d, basis_dir=T, verbose=%r)" % (method, big, v)], big),
+                     ('mem-crop', ["abel.dasch.cache_cleanup()",
+                                   "abel.dasch.get_bs_cached(%r, %d, basis_dir=T, verbose=%r)" % (method, big, v),
+                                   "M = abel.dasch.get_bs_cached(%r, %d, basis_dir=T, verbose=%r)" % (method, small, v)], small),
+                     ('disk-crop', ["abel.dasch.cache_cleanup()",
+                                    "abel.dasch.get_bs_cached(%r, %d, basis_dir=T, verbose=%r)" % (method, big, v),
+                                    "abel.dasch.cache_cleanup()",
+                                    "M = abel.dasch.get_bs_cached(%r, %d, basis_dir=T, verbose=%r)" % (method, small, v)], small)]
+            if v:
+                hists = hists[2:]          # the verbose flag only matters on the load path
+            for tag, lines, n in hists:
+                lines = lines + ["abel.dasch.cache_cleanup()"]
+                ns = run_hist(lines)
+                if ns is None:
+                    continue
+                M = np.array(ns['M'])
+                if M.shape != (n, n):
+                    shape_hit('%s:%s' % (method, tag), lines, 'abel.dasch.get_bs_cached(%r, %d) [%s] returned shape %r'
+                              % (method, n, tag, M.shape), 'tuple(np.shape(M))', (n, n))
+                    continue
+                prs = [(n - 1, n - 1), (1, n - 1), (n // 2, n // 2 + 1), (n // 2 + 1, n // 2), (2, 1), (1, 1), (n - 2, n - 1)]
+                prs += [(int(rng.integers(1, n)), int(rng.integers(0, n))) for _ in range(budget)]
+                for a, b in prs:
+                    what = 'abel.dasch.get_bs_cached(%r, %d) [%s, verbose=%r] element [%d][%d]' % (method, n, tag, v, a, b)
+                    if method == 'onion_peeling':
+                        wd, dw = Q.onion_products(M, a, b)
+                        ref = 1.0 if a == b else 0.0
+                        tol = 1e-10 * n
+                        judge('%s:%s' % (method, tag), lines, what + ' of W.D (W = ring projections)',
+                              'Q.onion_products(np.array(M), %d, %d)[0]' % (a, b), repr(ref), wd, ref, tol, index_class(a, b, n))
+                        judge('%s:%s' % (method, tag), lines, what + ' of D.W (W = ring projections)',
+                              'Q.onion_products(np.array(M), %d, %d)[1]' % (a, b), repr(ref), dw, ref, tol, index_class(a, b, n))
+                    else:
+                        ref, qe = Q.dasch_entry(method, n, a, b)
+                        tol = 1e-11 + 10 * qe
+                        judge('%s:%s' % (method, tag), lines, what, 'M[%d, %d]' % (a, b),
+                              'Q.dasch_entry(%r, %d, %d, %d)[0]' % (method, n, a, b), float(M[a, b]), ref, tol,
+                              index_class(a, b, n))
+    # ---- daun: forward matrix, larger n -> smaller n (memory and disk), degree 3 exact size
+    for deg in range(4):
+        big, small = (60, 20) if deg < 3 else (12, 8)
+        for v in verbs:
+            call = "abel.daun.get_bs_cached(%d, %d, direction='forward', basis_dir=T, verbose=" + repr(v) + ")"
+            hists = [('fresh', ["abel.daun.cache_cleanup()", "M = " + call % (big, deg)], big),
+                     ('mem-after-larger', ["abel.daun.cache_cleanup()", call % (big, deg), "M = " + call % (small, deg)], small),
+                     ('disk-after-larger', ["abel.daun.cache_cleanup()", call % (big, deg), "abel.daun.cache_cleanup()",
+                                            "M = " + call % (small, deg)], small),
+                     ('disk-same', ["abel.daun.cache_cleanup()", call % (big, deg), "abel.daun.cache_cleanup()",
+                                    "M = " + call % (big, deg)], big)]
+            if v:
+                hists = hists[2:]
+            for tag, lines, n in hists:
+                lines = lines + ["abel.daun.cache_cleanup()"]
+                ns = run_hist(lines)
+                if ns is None:
+                    continue
+                M = np.array(ns['M'])
+                prs = [(0, 0), (1, 0), (1, 1), (n - 1, n - 1), (n - 1, 0), (n - 1, n - 2), (n // 2, 1)]
+                prs += [tuple(sorted((int(a), int(b)), reverse=True)) for a, b in rng.integers(0, n, (budget, 2))]
+                if M.shape != (n, n):
+                    shape_hit('daun%d:%s' % (deg, tag), lines, 'abel.daun.get_bs_cached(%d, %d, forward) [%s] returned shape %r'
+                              % (n, deg, tag, M.shape), 'tuple(np.shape(M))', (n, n))
+                    continue
+                for j, i in prs:
+                    ref, qe = Q.daun_entry(n, deg, j, i)
+                    jj = n if deg == 3 else j + 1
+                    tol = 1e-13 * float(jj) ** (deg + 1) + 1e-11 + 10 * qe
+                    judge('daun%d:%s' % (deg, tag), lines,
+                          "abel.daun.get_bs_cached(%d, %d, direction='forward') [%s, verbose=%r] element [%d][%d]" % (n, deg, tag, v, j, i),
+                          'M[%d, %d]' % (j, i), 'Q.daun_entry(%d, %d, %d, %d)[0]' % (n, deg, j, i), float(M[j, i]), ref, tol,
+                          index_class(j, i, n))
+    # ---- rbasex: forward matrices; richer file (odd, larger order, larger Rmax) -> smaller request
+    bigR, bigO = 30, 4
+    for v in verbs:
+        call = "abel.rbasex.get_bs_cached(%d, %d, %r, direction='forward', basis_dir=T, verbose=" + repr(v) + ")"
+        reqs = [('fresh', bigR, bigO, True), ('odd-file-to-even', bigR, bigO, False), ('odd-file-to-even-lower-order', 20, 2, False),
+                ('crop-Rmax-order', 20, 3, True), ('odd-file-to-order0', 12, 0, False)]
+        for tag, Rm, order, odd in reqs:
+            lines = ["abel.rbasex.cache_cleanup()", call % (bigR, bigO, True), "abel.rbasex.cache_cleanup()",
+                     "M = " + call % (Rm, order, odd), "M = [np.array(x) for x in M]", "abel.rbasex.cache_cleanup()"]
+            if tag == 'fresh':
+                lines = ["abel.rbasex.cache_cleanup()", "M = " + call % (Rm, order, odd), "M = [np.array(x) for x in M]",
+                         "abel.rbasex.cache_cleanup()"]
+            ns = run_hist(lines)
+            if ns is None:
+                continue
+            M = ns['M']
+            orders = list(range(0, order + 1, 1 if odd else 2))
+            if len(M) != len(orders) or any(m.shape != (Rm + 1, Rm + 1) for m in M):
+                shape_hit('rbasex:%s' % tag, lines,
+                          'abel.rbasex.get_bs_cached(%d, %d, %r, forward) [%s, verbose=%r] returned %d matrices %r (one per angular order expected)'
+                          % (Rm, order, odd, tag, v, len(M), [m.shape for m in M][:3]),
+                          '[tuple(m.shape) for m in M]', [(Rm + 1, Rm + 1)] * len(orders))
+                continue
+            for ix, n in enumerate(orders):
+                prs = [(1, 1), (2, 1), (Rm, Rm), (Rm, 1), (Rm // 2, Rm // 2 - 1), (3, 0)]
+                prs += [tuple(int(x) for x in sorted(rng.integers(1, Rm + 1, 2), reverse=True)) for _ in range(max(1, budget // 2))]
+                for Rc, r in prs:
+                    ref, qe = Q.rbasex_entry(n, Rc, r)
+                    tol = 1e-12 * max(1.0, Rc) ** 2 + 1e-11 + 10 * qe
+                    # forward matrices are transposed: A[n][r, R] = p_{R;n}(r)
+                    judge('rbasex:%s' % tag, lines,
+                          "abel.rbasex.get_bs_cached(%d, %d, %r, direction='forward') [%s, verbose=%r]: matrix %d (order %d) element p_{R=%d}(r=%d)"
+                          % (Rm, order, odd, tag, v, ix, n, Rc, r),
+                          'M[%d][%d, %d]' % (ix, r, Rc), 'Q.rbasex_entry(%d, %d, %d)[0]' % (n, Rc, r), float(M[ix][r, Rc]), ref, tol,
+                          'order%d:%s' % (n, index_class(Rc, r, Rm + 1)))
+    # ---- basex: basis sets cached by get_bs_cached (module global _bs): fresh, cropped file, extended file
+    for sigma in (1.0, float(np.round(rng.uniform(0.6, 2.5), 2))):
+        for v in verbs:
+            call = "abel.basex.get_bs_cached(%d, %r, reg=1.0, correction=False, basis_dir=T, verbose=" + repr(v) + ", direction='forward')"
+            grab = "M, Mc = [np.array(x) for x in abel.basex._bs]"
+            hists = [('fresh', ["abel.basex.cache_cleanup()", call % (40, sigma), grab], 40),
+                     ('disk-crop', ["abel.basex.cache_cleanup()", call % (40, sigma), "abel.basex.cache_cleanup()",
+                                    call % (25, sigma), grab], 25),
+                     ('disk-extend', ["abel.basex.cache_cleanup()", call % (40, sigma), "abel.basex.cache_cleanup()",
+                                      call % (60, sigma), grab], 60)]
+            if v:
+                hists = hists[1:]
+            for tag, lines, n in hists:
+                lines = lines + ["abel.basex.cache_cleanup()"]
+                ns = run_hist(lines)
+                if ns is None:
+                    continue
+                M, Mc = ns['M'], ns['Mc']
+                nbf = abel.basex._nbf(n, sigma)
+                if M.shape != (n, nbf) or Mc.shape != (n, nbf):
+                    shape_hit('basex:%s' % tag, lines, 'abel.basex.get_bs_cached(%d, %r) [%s] cached basis sets of shapes %r %r'
+                              % (n, sigma, tag, M.shape, Mc.shape), '[tuple(M.shape), tuple(Mc.shape)]', [(n, nbf), (n, nbf)])
+                    continue
+                prs = [(0, 0), (1, 1), (n - 1, nbf - 1), (n - 1, 0), (0, nbf - 1), (n // 2, nbf // 2), (min(n - 1, 41), nbf - 1), (10, 3)]
+                prs += [(int(rng.integers(n)), int(rng.integers(nbf))) for _ in range(budget)]
+                for i, k in prs:
+                    ref, qe = Q.basex_chi(k, sigma, i)
+                    tol = (1e-9 + 4e-15 * k * k * math.log(k * k + 2.0)) * max(abs(ref), sigma) + 10 * qe
+                    judge('basex:%s' % tag, lines,
+                          'abel.basex.get_bs_cached(%d, %r) [%s, verbose=%r]: projected basis chi_%d(x=%d)' % (n, sigma, tag, v, k, i),
+                          'M[%d, %d]' % (i, k), 'Q.basex_chi(%d, %r, %d)[0]' % (k, sigma, i), float(M[i, k]), ref, tol,
+                          index_class(i, k, n))
+                    r2 = Q.basex_rho(k, sigma, i)
+                    judge('basex:%s' % tag, lines,
+                          'abel.basex.get_bs_cached(%d, %r) [%s, verbose=%r]: basis function rho_%d(r=%d)' % (n, sigma, tag, v, k, i),
+                          'Mc[%d, %d]' % (i, k), 'Q.basex_rho(%d, %r, %d)' % (k, sigma, i), float(Mc[i, k]), r2,
+                          1e-9 * max(r2, 1e-300) + 1e-300, 'rho:' + index_class(i, k, n))
+    if failed_hist:
+        ctx.notes.append('get_bs_cached histories that raised (skipped, not a C09 clause): %d, first: %r'
+                         % (len(failed_hist), failed_hist[0]))
     return hits, n_eval, len(distinct), worst
 
 
@@ -608,6 +867,14 @@ def run(ctx):
     t0 = time.time()
     hits, n_eval, n_distinct, worst = search(ctx, rng, budget)
     notes.append('search: %d evaluations in %.0fs' % (n_eval, time.time() - t0))
+    t0 = time.time()
+    h2, n2, d2, w2 = cached_search(ctx, rng, budget)
+    hits += h2
+    n_eval += n2
+    n_distinct += d2
+    worst.update(w2)
+    notes.append('search through get_bs_cached (memory / disk histories, verbose off and on): %d evaluations in %.0fs'
+                 % (n2, time.time() - t0))
     if os.environ.get('C09_SELFTEST_GOALS_FIRST'):
         hits = []        # self-test switch: let the Coq goals see the mutant before the search reports it
     # 2b. translation validation + 4. instances, inside Coq (skipped when the search already
